@@ -180,7 +180,8 @@ def run(ctx):
     g, res = objcheck.tlc_graph(ctx, "MC_MapDict.tla", cfg, workers=4)
     walks = (300, 40) if ctx.tier == "quick" else (4000, 60)
     for cls in CLASSES:
-        objcheck.replay_cover(ctx, g, [tok(INIT)], exe, cls, [cls, str(nk), str(nv)], keyfn, walks=walks, jobs=4)
+        objcheck.replay_cover(ctx, g, [tok(INIT)], exe, cls, [cls, str(nk), str(nv)], keyfn, walks=walks, jobs=4,
+                              pairs=(40000 if ctx.tier == "quick" else 400000))
     trace_validation(ctx, exe)
     ctx.cov["exhaustive"] = True
     ctx.cov["rule"] = ("every transition TLC generates for MapDict in the bounded scope is executed once per class as the last step of a "
